@@ -303,8 +303,8 @@ def rule_bytestr(toks, lo, hi, edits, log):
             log("R-bytestr: %s" % t.text)
 
 
-def make_seq_rule(name, from_seq, to_text):
-    """Token-sequence replacement: `<from_seq>` -> `<to_text>`."""
+def make_seq_rule(name, from_seq, to_text, not_after=()):
+    """Token-sequence replacement: `<from_seq>` -> `<to_text>` (not where the preceding token is one of `not_after`)."""
     want = [t.text for t in lex(from_seq) if t.kind not in WS]
 
     def rule(toks, lo, hi, edits, log, it=None):
@@ -312,7 +312,7 @@ def make_seq_rule(name, from_seq, to_text):
         n = 0
         while n <= len(s) - len(want):
             if all(toks[s[n + k]].text == want[k] for k in range(len(want))):
-                if not (n > 0 and want[0] == "std" and toks[s[n - 1]].text == "::"):
+                if not (n > 0 and want[0] == "std" and toks[s[n - 1]].text == "::") and not (n > 0 and toks[s[n - 1]].text in not_after):
                     edits.delete(s[n], s[n + len(want) - 1] + 1)
                     edits.ins_before(s[n], to_text, None)
                     log("%s: `%s` -> `%s`" % (name, from_seq, to_text))
@@ -478,6 +478,22 @@ def rule_mut_self(toks, lo, hi, edits, log, it=None):
         if toks[i].kind == "id" and toks[i].text == "self":
             edits.replace[i] = "verif_self"
     log("R-mut-self: `mut self` -> local `verif_self`")
+
+
+def make_mut_param_rule(name):
+    """R-mut-param: `async fn f(.., mut NAME: T, ..) { BODY }` -> `async fn f(.., NAME: T, ..) { let mut NAME = NAME; BODY }`
+    (a by-value `mut` parameter is exactly a mutable local initialised from the parameter; Verus rejects it on async fns)."""
+    def rule(toks, lo, hi, edits, log, it=None):
+        if it is None or it.kind != "fn" or it.open is None:
+            return
+        s = sig_idx(toks, it.kw, it.open)
+        for n in range(1, len(s) - 2):
+            if toks[s[n]].text == "mut" and toks[s[n + 1]].text == name and toks[s[n + 2]].text == ":" and toks[s[n - 1]].text in ("(", ","):
+                edits.replace[s[n]] = ""
+                edits.ins_after(it.open, " let mut %s = %s; " % (name, name), None)
+                log("R-mut-param: `mut %s` -> local rebinding" % name)
+                return
+    return rule
 
 
 def make_break_value_rule(fn_names):
